@@ -1,7 +1,7 @@
 (* C11/Props.v : property theorems of C11 (statements; proofs in ProofsPipeline.v). *)
 From Coq Require Import List Arith Bool Lia.
-From QV Require Import C09.Trace C09.ModelRouter C09.ModelBlocks C09.ProofsRouter C09.ProofsSem
-                       C11.ModelPipeline C11.ProofsPipeline.
+From QV Require Import C09.Trace C09.ModelRouter C09.ModelBlocks C09.ModelDag C09.ProofsRouter C09.ProofsDag
+                       C09.ProofsSem C11.ModelPipeline C11.ProofsPipeline.
 Import ListNotations.
 
 (* Preprocessing: gates untouched, the circuit's own wires keep their positions, the appended
@@ -93,6 +93,50 @@ Theorem router_premise_ok : forall n (I : interp n) G items finals body ops s c1
   forall x, ieq n I (irun I (cgates c3) x) (ipact n I (at_ (l2p s)) (irun I (cgates c1) x)).
 Proof. exact router_premise_from_C09. Qed.
 Print Assumptions router_premise_ok.
+
+(* restrict_connectivity_qubits / on_qubits: the restricted device has exactly the selected nodes
+   (which must be device nodes), exactly the edges with both ends selected, and is connected;
+   a circuit accepted on the restricted device is executable on the full device *)
+Theorem restrict_connectivity_ok : forall d qs d',
+  restrict d qs = Some d' ->
+  dnodes d' = qs /\
+  (forall q, In q qs -> In q (dnodes d)) /\
+  (forall a b, has_edge (dedges d') a b = true <->
+               has_edge (dedges d) a b = true /\ In a qs /\ In b qs) /\
+  (forall v w, hd_error qs = Some v -> In w qs -> path (sym_edges (dedges d')) v w).
+Proof. exact restrict_spec. Qed.
+Print Assumptions restrict_connectivity_ok.
+
+Theorem restrict_connectivity_raises : forall d qs,
+  restrict d qs = None <->
+  (exists q, In q qs /\ ~ In q (dnodes d)) \/
+  connectedb qs (filter (fun e => mem (fst e) qs && mem (snd e) qs) (dedges d)) = false.
+Proof. exact restrict_none. Qed.
+Print Assumptions restrict_connectivity_raises.
+
+Theorem on_qubits_executable : forall d qs d' c,
+  restrict d qs = Some d' -> spec_connectivity d' c = true -> spec_connectivity d c = true.
+Proof. exact restrict_mono. Qed.
+Print Assumptions on_qubits_executable.
+
+(* StarConnectivityPlacer (concrete model) meets the placer contract *)
+Theorem star_placer_ok : forall d c mid w',
+  assert_placement d c = true -> mid < cn c ->
+  (forall g q, In g (cgates c) -> In q (gqs g) -> q < cn c) ->
+  star_placer mid c = Some w' ->
+  placer_contract d c w' = true.
+Proof. exact star_placer_contract. Qed.
+Print Assumptions star_placer_ok.
+
+Example restrict_example :
+  let d := mkD [0;1;2;3] [(0,1);(1,2);(2,3)] in
+  restrict d [2;1] = Some (mkD [2;1] [(1,2)]) /\ restrict d [0;2] = None /\ restrict d [0;7] = None.
+Proof. repeat split; reflexivity. Qed.
+
+Example star_placer_example :
+  star_placer 0 (mkC [10;11;12;13;14] [mkG KU 1 [0;1]; mkG KU 2 [1;2]; mkG KU 3 [2;3]])
+    = Some [12;11;10;13;14].
+Proof. reflexivity. Qed.
 
 (* ---- non-vacuity: a complete pipeline run on the line a-b-c (nodes 10,11,12) with a two-wire
    circuit on (12,10): padding, placement, routing with one SWAP, unrolling CZ -> itself *)
